@@ -22,7 +22,7 @@ def viols_of(res):
 
 
 def run_c13(ctx):
-    bindir = C.build_harness()
+    bindir = C.build_harness(bins=["abi"])
     # --- calibration: the table against the installed kernel header
     pc = ctx.path("kprobe.c")
     subprocess.run(["python3", os.path.join(C.VERIF, "tools", "gen_abi.py"), "probe-c", pc], check=True)
